@@ -191,6 +191,40 @@ def rule_identity(ctx):
     pdef = [n for n in nodes if n.kind == "stmt" and isinstance(n.ast, ast.FunctionDef) and n.ast.name == "progress"]
     ok = len(pdef) == 1 and ("truth", "msg.receive_progress", None, True) in mf.at(pdef[0])
     ctx.ob("progress callback exists only when the caller asked for progressive results", ok, "progress() defined without msg.receive_progress", om.fn.loc())
+    # "progressive results are sent only before the terminal reply": the callback handed to the endpoint outlives the invocation (the endpoint
+    # may keep it); cell-wise over (invocation still pending or already answered/interrupted) x (payload): it sends iff still pending
+    if pdef:
+        from ..core.tiny import Tiny, Sym
+        pf = pdef[0].ast
+        probs = []
+        try:
+            for pending in (True, False):
+                for pa, pk in (([], {}), ([Sym("partial")], {"k": Sym("v")})):
+                    sent = []
+
+                    def default(f_, a_, k_=None):
+                        if f_ == "self._transport.send":
+                            sent.append(a_[0])
+                            return None
+                        if f_ == "message.Yield":
+                            return Sym("YIELD", request=a_[0] if a_ else None, **{k: v for k, v in (k_ or {}).items() if k in ("progress", "args", "kwargs")})
+                        return Sym(f"<{f_}>")
+                    va = pf.args.vararg.arg if pf.args.vararg else "args"
+                    vk = pf.args.kwarg.arg if pf.args.kwarg else "kwargs"
+                    env = {"self": Sym("session"), "msg.request": 100, "self._invocations": ({100: Sym("pending-invocation")} if pending else {}), "msg.enc_algo": None,
+                           "self._payload_codec": None, va: list(pa), vk: dict(pk), "tuple": "tuple", "list": "list", "dict": "dict", "proc": "com.proc"}
+                    t = Tiny(env, default_call=lambda f_, a_, k_=None: ("list" if f_ == "type" and isinstance(a_[0], list) else "dict" if f_ == "type" else default(f_, a_, k_)))
+                    r = t.run([x for x in pf.body if not (isinstance(x, ast.Expr) and isinstance(x.value, ast.Constant))])
+                    cell = f"invocation {'still pending' if pending else 'already answered'}, progress payload {pa}, {pk}"
+                    if r[0] == "raise" and pending:
+                        probs.append(f"{cell}: raises {r[1]}")
+                    elif pending and not (len(sent) == 1 and isinstance(sent[0], Sym) and sent[0].attrs.get("request") == 100 and sent[0].attrs.get("progress") is True):
+                        probs.append(f"{cell}: sends {sent}, expected one YIELD(progress=True) for the request")
+                    elif not pending and sent:
+                        probs.append(f"{cell}: a progressive YIELD is sent after the terminal reply of the invocation")
+            ctx.ob("progress(): a progressive result is sent only while the invocation is still pending [4 cells]", not probs, "; ".join(probs[:2]), om.fn.loc(pf))
+        except AnalysisError as e:
+            raise AnalysisError(f"[C10.4-reply-identity-and-arguments] progress() outside the modelled subset: {e}")
     pn = [n for n in nodes if n.kind == "stmt" and isinstance(n.ast, ast.Assign) and norm.text(n.ast.targets[0]) == "progress"]
     ctx.ob("otherwise progress is None", len(pn) == 1 and norm.text(pn[0].ast.value) == "None" and ("truth", "msg.receive_progress", None, False) in mf.at(pn[0]), "changed", om.fn.loc())
     call = [(n, c) for n in nodes for c in node_calls(n) if call_name(c) == "txaio.as_future" and c.args and norm.text(c.args[0]) == "endpoint.fn"]
